@@ -22,8 +22,12 @@ PLAIN = {'ipk': False, 'iunique': False, 'apk': False, 'rtype': '>', 'r2inline':
 
 
 class World:
-    def __init__(self, fl=None):
+    def __init__(self, fl=None, by_copy=False):
         fl = fl or PLAIN
+        # members are named by VALUE in the delete_* calls (an equal, distinct object) in every other case: what is removed and
+        # detached is the member, never the object that was handed in
+        import copy
+        self.named = (lambda o: copy.copy(o)) if by_copy else (lambda o: o)
         from pydbml.database import Database
         from pydbml.classes import Table, Column, Index, Reference, Enum, EnumItem
         self.D = Database()
@@ -63,7 +67,7 @@ class World:
             o, f = self._attr(e['a'])
             setattr(o, f, self.saved[e['a']])
         elif op == 'delete_index':
-            self.T.delete_index(self.I)
+            self.T.delete_index(self.named(self.I))
         elif op == 'add_index':
             self.T.add_index(self.I)
         elif op == 'refused_add_index':
@@ -72,9 +76,9 @@ class World:
             except Exception:
                 pass
         elif op == 'delete_col_a':
-            self.T.delete_column(self.a)
+            self.T.delete_column(self.named(self.a))
         elif op == 'delete_col_b':
-            self.T.delete_column(self.b)
+            self.T.delete_column(self.named(self.b))
         elif op == 'add_a_to_T':
             self.T.add_column(self.a)
         elif op == 'add_b_to_T':
@@ -88,7 +92,7 @@ class World:
         elif op == 'unset_inline':
             self.R.inline = False
         elif op == 'delete_table':
-            self.D.delete(self.T)
+            self.D.delete(self.named(self.T))
         elif op == 'add_table':
             self.D.add(self.T)
         else:
@@ -111,7 +115,7 @@ class World:
 def _exec_chunk(items):
     out = []
     for it in items:
-        w = World(it.get('fl'))
+        w = World(it.get('fl'), by_copy=bool(it.get('by_copy', it['tid'] % 2)))
         steps = [{q: w.query(q) for q in QUERIES}]
         hist = []
         for e in it['hist']:
@@ -161,6 +165,8 @@ def main(argv: List[str]) -> int:
         for f in fs:
             items.append({'tid': len(items) + 1, 'hist': h, 'fl': f})
     rep.notes['flavours'] = len(flavours)
+    for it in items:
+        it['by_copy'] = it['tid'] % 2
     recs: List[Dict[str, Any]] = []
     for part in core.pmap(_exec_chunk, core.chunked(items, core.NCPU * 2)):
         recs += part
@@ -177,7 +183,7 @@ def main(argv: List[str]) -> int:
             if r['hist']:
                 rep.mark_nontrivial(r['hist'])
         else:
-            rep.violation({'hist': items[r['tid'] - 1]['hist'], 'fl': items[r['tid'] - 1]['fl']}, {'failing_clause': v, 'outcomes': r['steps']})
+            rep.violation({'hist': items[r['tid'] - 1]['hist'], 'fl': items[r['tid'] - 1]['fl'], 'by_copy': items[r['tid'] - 1]['by_copy']}, {'failing_clause': v, 'outcomes': r['steps']})
     alld = {'tname', 'tschema', 'aname', 'atype', 'ename', 'eschema', 'iname', 'index detached', 'a detached', 'b detached',
             'mixed side', 'composite inline', 'table detached'}
     if reached != alld:
@@ -190,7 +196,7 @@ def main(argv: List[str]) -> int:
 def replay(path: str) -> int:
     core.setup_env()
     v = json.load(open(path))
-    recs = _exec_chunk([{'tid': 1, 'hist': v['stimulus']['hist'], 'fl': v['stimulus'].get('fl')}])
+    recs = _exec_chunk([{'tid': 1, 'hist': v['stimulus']['hist'], 'fl': v['stimulus'].get('fl'), 'by_copy': v['stimulus'].get('by_copy', 0)}])
     cfgt = open(tlc.SPEC_DIR + '/TraceInvalid.cfg').read().replace('MaxSteps = 3', 'MaxSteps = 6')
     verdicts, _ = core.validate('TraceInvalid', 'TraceInvalid.cfg', recs, cfg_text=cfgt)
     print('verdict: %r' % (verdicts[1],))
